@@ -21,7 +21,14 @@ Env == <<
   [n |-> "Ln",  kind |-> "type", ty |-> Uni(<<TNull, Obj(<<Prop("v", TNumber, FALSE), Prop("next", Ref("Ln"), FALSE)>>, <<>>)>>)],
   \* recursion that only passes through an index signature (nested dictionary), with and without a declared property
   [n |-> "Di",  kind |-> "type", ty |-> Obj(<<>>, <<Ix(TString, Ref("Di"))>>)],
-  [n |-> "Dj",  kind |-> "type", ty |-> Obj(<<Prop("a", TNumber, TRUE)>>, <<Ix(TString, Uni(<<TNumber, Ref("Dj")>>))>>)]
+  [n |-> "Dj",  kind |-> "type", ty |-> Obj(<<Prop("a", TNumber, TRUE)>>, <<Ix(TString, Uni(<<TNumber, Ref("Dj")>>))>>)],
+  \* a cycle through three declarations that loops back into a union with an inhabited member
+  [n |-> "P3",  kind |-> "type", ty |-> Obj(<<Prop("b", Ref("Q3"), FALSE)>>, <<>>)],
+  [n |-> "Q3",  kind |-> "type", ty |-> Obj(<<Prop("c", Ref("R3"), FALSE)>>, <<>>)],
+  [n |-> "R3",  kind |-> "type", ty |-> Obj(<<Prop("a", Uni(<<Ref("P3"), Ref("D3")>>), FALSE)>>, <<>>)],
+  [n |-> "D3",  kind |-> "type", ty |-> Obj(<<Prop("z", TNull, FALSE)>>, <<>>)],
+  \* a recursive tuple without a base case (uninhabited, but not literally never)
+  [n |-> "LL",  kind |-> "type", ty |-> Tup(<<TNumber, Ref("LL")>>, <<>>)]
 >>
 
 Leaves == <<TNull, TBoolean, LB(TRUE), TNumber, LN("1"), LN("2"), TString, LS("a"), LS("b")>>
@@ -46,6 +53,15 @@ Depth1 ==
   \* comparison, inside a decision diagram that has further members
   \cup {Uni(<<Ref(nm), o>>) : nm \in {"L", "M1"}, o \in {O(<<Prop("a", TString, FALSE)>>), O(<<Prop("b", TNumber, FALSE)>>)}}
   \cup {Uni(<<Ref("Tu"), t>>) : t \in {Tup(<<TString>>, <<>>), Tup(<<TNull>>, <<>>)}}
+  \* members that are uninhabited without being written `never`, inside tuples / objects / unions
+  \cup {Tup(<<Inter(<<O(<<Prop("a", TNumber, FALSE)>>), O(<<Prop("a", TString, FALSE)>>)>>), TNull>>, <<>>),
+        Uni(<<Tup(<<TString>>, <<>>), Ref("LL")>>), Uni(<<Tup(<<TString>>, <<>>), Tup(<<Inter(<<LN("1"), TString>>), TNull>>, <<>>)>>),
+        O(<<Prop("l", Ref("LL"), FALSE)>>), Tup(<<Tup(<<Ref("LL")>>, <<>>)>>, <<>>),
+        O(<<Prop("f", Uni(<<Ref("P3"), Ref("D3")>>), FALSE), Prop("g", Ref("Q3"), FALSE)>>),
+        O(<<Prop("f", Ref("Q3"), FALSE), Prop("g", Uni(<<Ref("P3"), Ref("D3")>>), FALSE)>>)}
+  \* tuples and arrays whose rest / element is unknown
+  \cup {Tup(<<TString>>, <<Prim("unknown")>>), Tup(<<TString, TNumber>>, <<Prim("unknown")>>), Arr(Prim("unknown")),
+        Uni(<<Tup(<<TString>>, <<Prim("unknown")>>), TNull>>)}
 
 Depth2 ==
   {Uni(<<O(<<Prop("a", TNumber, FALSE)>>), O(<<Prop("b", TString, FALSE)>>)>>),
